@@ -47,6 +47,8 @@ class ExecutionContext:
     on_metric: MetricHook | None
     on_log: LogHook | None
     operation: str | None
+    admitted: bool = False  # the breaker admitted this call
+    settled: bool = False  # the call's end was reported to the breaker
 
     @classmethod
     def create(
@@ -102,10 +104,27 @@ def check_breaker(ctx: ExecutionContext) -> None:
         return
 
     decision = ctx.breaker.allow()
-    ctx.emit_breaker_event(decision.event, decision.state)
+    ctx.admitted = decision.allowed
+    try:
+        ctx.emit_breaker_event(decision.event, decision.state)
+    except BaseException:
+        settle_breaker(ctx)
+        raise
 
     if not decision.allowed:
         raise CircuitOpenError(decision.state.value)
+
+
+def settle_breaker(ctx: ExecutionContext) -> None:
+    """
+    Release the breaker if an admitted call ended without reporting its result.
+
+    Called from ``finally`` blocks so that no exit path (cancellation, GeneratorExit,
+    a raising hook or classifier, a nested CircuitOpenError, ...) can leave a
+    half-open probe slot occupied.
+    """
+    if ctx.breaker is not None and ctx.admitted and not ctx.settled:
+        record_cancel(ctx)
 
 
 def record_success(ctx: ExecutionContext) -> None:
@@ -113,6 +132,7 @@ def record_success(ctx: ExecutionContext) -> None:
     if ctx.breaker is None:
         return
 
+    ctx.settled = True
     event = ctx.breaker.record_success()
     ctx.emit_breaker_event(event, ctx.breaker.state)
 
@@ -120,6 +140,7 @@ def record_success(ctx: ExecutionContext) -> None:
 def record_cancel(ctx: ExecutionContext) -> None:
     """Record cancellation with circuit breaker (no event emitted)."""
     if ctx.breaker is not None:
+        ctx.settled = True
         ctx.breaker.record_cancel()
 
 
@@ -128,6 +149,7 @@ def record_failure(ctx: ExecutionContext, klass: ErrorClass) -> None:
     if ctx.breaker is None:
         return
 
+    ctx.settled = True
     event = ctx.breaker.record_failure(klass)
     ctx.emit_breaker_event(event, ctx.breaker.state, klass)
 
